@@ -88,6 +88,11 @@ func runTAB10(p *Prog, r *RuleRun) {
 		r.Unknown("extensions", "?", fmt.Sprintf("only %d in-place extensions of the pending buffer found", nExt))
 	}
 	// (b) the commit frame header carries the rolling CRC
+	_, _, fhCRC := frameHeaderFields(p)
+	if fhCRC == nil {
+		// the role of the CRC field is defined by this very store; fall back to any uint32 field of a 3-field header
+		r.Unknown("commit-frame-crc:anchor", "?", "cannot tell the CRC field of the frame header from its length field")
+	}
 	okCommit := false
 	var cpos ssa.Instruction
 	for fn := range p.reachableFuncs(a.mutators...) {
@@ -98,7 +103,7 @@ func runTAB10(p *Prog, r *RuleRun) {
 					continue
 				}
 				fv := fieldOfAddr(st.Addr)
-				if fv == nil || fv.Name() != "crc" || fv == a.crc {
+				if fv == nil || fv != fhCRC || fv == a.crc {
 					continue
 				}
 				cpos = st
